@@ -683,6 +683,11 @@ class QGen:
             return cols[0][0], [("col1", cols[0][1])]
         if form == "dict":
             keys = [f"c{i}" if self.chance(2, 3) else self.pick(["pt", "eta", "n", "val", "x"]) + str(i) for i in range(ncols)]
+            if self.chance(1, 5):
+                # distinct names that are equal once reduced to identifier characters
+                pool = ["jet_pt", "jet.pt", "jet pt", "jet-pt", "jet/pt"]
+                k0 = self.draw(st.integers(0, len(pool) - 1))
+                keys = [pool[(k0 + i) % len(pool)] if i < len(pool) else f"c{i}" for i in range(ncols)]
             txt = "{" + ", ".join(f"{k!r}: {c[0]}" for k, c in zip(keys, cols)) + "}"
             return txt, [(k, c[1]) for k, c in zip(keys, cols)]
         if form == "list":
